@@ -24,16 +24,33 @@ pub struct AcctAlloc;
 static LIMIT: AtomicUsize = AtomicUsize::new(usize::MAX);
 static BIGGEST: AtomicUsize = AtomicUsize::new(0);
 static WHITELIST: [AtomicUsize; 8] = [const { AtomicUsize::new(0) }; 8];
+/// sum of the sizes of all requests >= 1 MiB during a run (constant reservations excluded)
+static CUMUL: AtomicUsize = AtomicUsize::new(0);
+static CUMUL_BASE: AtomicUsize = AtomicUsize::new(0);
+/// the first requests >= 1 MiB of a run (for the report)
+static CUMUL_LOG: [AtomicUsize; 12] = [const { AtomicUsize::new(0) }; 12];
+static CUMUL_N: AtomicUsize = AtomicUsize::new(0);
 
 #[inline]
 fn note(size: usize) {
-    if size > LIMIT.load(Ordering::Relaxed) {
+    if size >= (1 << 20) {
+        let limit = LIMIT.load(Ordering::Relaxed);
+        if limit == usize::MAX {
+            return;
+        }
         for w in WHITELIST.iter() {
             if w.load(Ordering::Relaxed) == size {
                 return;
             }
         }
-        BIGGEST.fetch_max(size, Ordering::Relaxed);
+        CUMUL.fetch_add(size, Ordering::Relaxed);
+        let k = CUMUL_N.fetch_add(1, Ordering::Relaxed);
+        if k < CUMUL_LOG.len() {
+            CUMUL_LOG[k].store(size, Ordering::Relaxed);
+        }
+        if size > limit {
+            BIGGEST.fetch_max(size, Ordering::Relaxed);
+        }
     }
 }
 unsafe impl std::alloc::GlobalAlloc for AcctAlloc {
@@ -678,7 +695,12 @@ impl Check for C03 {
             }
             WHITELIST[slot].store(b, Ordering::SeqCst);
         }
+        // what a benign run requests in blocks >= 1 MiB apart from the constant reservations
+        CUMUL.store(0, Ordering::SeqCst);
+        let _ = chain(&c, &mut ctx);
+        CUMUL_BASE.store(CUMUL.swap(0, Ordering::SeqCst), Ordering::SeqCst);
         BIGGEST.store(0, Ordering::SeqCst);
+        LIMIT.store(usize::MAX, Ordering::SeqCst);
     }
     fn generate(rng: &mut Rng, _tier: Tier, _idx: u64) -> Case {
         let mut f = rng.sub("faults");
@@ -755,10 +777,17 @@ impl Check for C03 {
         ctx.sim_time(c.bytes.len() as u128);
         LIMIT.store(std::cmp::max(ALLOC_FLOOR, 64 * c.bytes.len() + ALLOC_FLOOR), Ordering::SeqCst);
         BIGGEST.store(0, Ordering::SeqCst);
+        CUMUL.store(0, Ordering::SeqCst);
+        CUMUL_N.store(0, Ordering::SeqCst);
         let r = chain(c, ctx);
         let big = BIGGEST.swap(0, Ordering::SeqCst);
+        let cumul = CUMUL.swap(0, Ordering::SeqCst);
         LIMIT.store(usize::MAX, Ordering::SeqCst);
         r?;
+        let allowance = CUMUL_BASE.load(Ordering::SeqCst) + 64 * c.bytes.len() + (64 << 20);
+        if big == 0 && cumul > allowance {
+            return Err(Violation::new("alloc-cumulative-unrelated-to-input", format!("requests of >= 1 MiB add up to {} MiB for an input of {} bytes (a benign input of this kind: {} MiB; first requests in KiB: {:?}; corpus {}, faults {:?})", cumul >> 20, c.bytes.len(), CUMUL_BASE.load(Ordering::SeqCst) >> 20, CUMUL_LOG.iter().take(std::cmp::min(CUMUL_N.load(Ordering::SeqCst), CUMUL_LOG.len())).map(|x| x.load(Ordering::SeqCst) >> 10).collect::<Vec<_>>(), c.corpus, c.faults)));
+        }
         if big > 0 {
             return Err(Violation::new("alloc-unrelated-to-input", format!("a single allocation of {} bytes was requested for an input of {} bytes (corpus {}, faults {:?})", big, c.bytes.len(), c.corpus, c.faults)));
         }
@@ -803,7 +832,7 @@ impl Check for C03 {
     }
     fn assumptions() -> Vec<&'static str> {
         vec![
-            "only crashes count: panics (incl. arithmetic overflow, the build has overflow checks on), aborts/signals (worker exit status), step-bound overruns and single allocations above max(64 x input + 16 MiB) that are not one of the implementation's constant reservations (learned per worker on a benign input)",
+            "only crashes count: panics (incl. arithmetic overflow, the build has overflow checks on), aborts/signals (worker exit status), step-bound overruns single allocations above max(64 x input + 16 MiB) that are not one of the implementation's constant reservations (learned per worker on a benign input), and requests of >= 1 MiB that add up to more than (benign baseline + 64 x input + 64 MiB) within one run",
             "BLF input is not part of the statement and is not generated",
             "the chain runs inside one shuttle execution because the stage functions use the seam's channel type",
         ]
